@@ -1,7 +1,8 @@
 ---- MODULE MC_ResMgr ----
 (* Bounded instance for C17: directory layouts over a small name universe, queries in every case variant. *)
 EXTENDS ResMgr
-VARIABLES done
+VARIABLES pl, clm, looseC
+vars == <<pl, clm, looseC>>
 aTxt == <<97,46,116,120,116>>   ATXT == <<65,46,84,88,84>>   bMap == <<98,46,109,97,112>>   cTrk == <<99>>   bTxt == <<98,46,116,120,116>>
 xVol == <<120,46,118,111,108>>  yVol == <<121,46,118,111,108>>  zClm == <<122,46,99,108,109>>
 \* where a name may live: 1 loose, 2 in x.vol, 3 in y.vol  (cTrk: 1 loose, 4 in z.clm)
@@ -22,29 +23,58 @@ Patterns == << Pat("prefix", <<97>>), Pat("suffix", <<46,116,120,116>>), Pat("co
 Emit(id, steps) == PrintT("S|" \o ToJson([id |-> id, steps |-> steps]))
 Blob(i) == i
 SelSeq(f) == SelectSeq(<<1, 2, 3, 4>>, LAMBDA i : f[i])
-Init == done = FALSE
-Next == /\ ~done /\ done' = TRUE
-        /\ \A pl \in [1..Len(Universe) -> SUBSET Places] : \A clm \in BOOLEAN : \A looseC \in BOOLEAN :
-             \* keep the enumeration moderate: at most 5 placements in total; x.vol must not hold two names equal ignoring case
-             (LET total == Cardinality({<<i, p>> \in (1..Len(Universe)) \X Places : p \in pl[i]}) IN total <= 4 /\ total >= 1)
-             /\ ~(2 \in pl[1] /\ 2 \in pl[2]) /\ ~(3 \in pl[1] /\ 3 \in pl[2]) =>
-             LET loose == SelectSeq([i \in 1..Len(Universe) |-> [name |-> Universe[i], blob |-> 10 * i + 1, on |-> 1 \in pl[i]]], LAMBDA r : r.on)
-                         \o (IF looseC THEN << [name |-> cTrk, blob |-> 91, on |-> TRUE] >> ELSE <<>>)
-                 xm == SelectSeq([i \in 1..Len(Universe) |-> [name |-> Universe[i], blob |-> 10 * i + 2, on |-> 2 \in pl[i]]], LAMBDA r : r.on)
-                 ym == SelectSeq([i \in 1..Len(Universe) |-> [name |-> Universe[i], blob |-> 10 * i + 3, on |-> 3 \in pl[i]]], LAMBDA r : r.on)
-                 vols == (IF xm # <<>> THEN << [file |-> xVol, kind |-> "vol", members |-> xm] >> ELSE <<>>)
-                         \o (IF ym # <<>> THEN << [file |-> yVol, kind |-> "vol", members |-> ym] >> ELSE <<>>)
-                 clms == IF clm THEN << [file |-> zClm, kind |-> "clm", members |-> << [name |-> cTrk, blob |-> 94] >>] >> ELSE <<>>
-                 Answers(archives) == LET L == [loose |-> loose, archives |-> archives] IN
-                    [order |-> [i \in 1..Len(archives) |-> archives[i].file],
-                     res |-> [i \in 1..Len(Queries) |-> [withArch |-> Resolve(L, Queries[i], TRUE), noArch |-> Resolve(L, Queries[i], FALSE),
-                                                          containing |-> IF IsRooted(Queries[i]) THEN <<63>> ELSE ContainingArchive(L, Queries[i])]],
-                     pats |-> [i \in 1..Len(Patterns) |-> [withArch |-> ListByPattern(L, Patterns[i], TRUE), noArch |-> ListByPattern(L, Patterns[i], FALSE)]],
-                     types |-> [i \in 1..Len(TypeQueries) |-> [withArch |-> ListOfType(L, TypeQueries[i], TRUE), noArch |-> ListOfType(L, TypeQueries[i], FALSE)]],
-                     txt |-> ListOfType(L, ExtTxt, TRUE), txtLoose |-> ListOfType(L, ExtTxt, FALSE), map |-> ListOfType(L, ExtMap, TRUE)]
-                 rev == [i \in 1..Len(vols) |-> vols[Len(vols) + 1 - i]]
-             IN Emit(<<pl, clm, looseC>>, << [op |-> "resmgr", loose |-> loose, vols |-> vols, clms |-> clms, queries |-> Queries, patterns |-> Patterns, types |-> TypeQueries,
-                                              badRoots |-> << <<110,111,112,101>> >> \o (IF loose # <<>> THEN << loose[1].name >> ELSE <<>>),     \* "nope" and a regular file are no resource directories: construction refused
-                                              answers |-> << Answers(vols \o clms), Answers(rev \o clms) >>] >>)
-Spec == Init /\ [][Next]_done
+\* ---- one TLC state per directory layout: pl[i] = the places universe name i lives in, clm = the CLM archive exists, looseC = a loose "c" ----
+Total(p) == Cardinality({<<i, q>> \in (1..Len(Universe)) \X Places : q \in p[i]})
+Init == /\ pl \in [1..Len(Universe) -> SUBSET Places] /\ clm \in BOOLEAN /\ looseC \in BOOLEAN
+        \* keep the enumeration moderate: 1..4 placements in total; one archive must not hold two names equal ignoring case
+        /\ Total(pl) <= 4 /\ Total(pl) >= 1
+        /\ ~(2 \in pl[1] /\ 2 \in pl[2]) /\ ~(3 \in pl[1] /\ 3 \in pl[2])
+Next == UNCHANGED vars
+Spec == Init /\ [][Next]_vars
+Loose == SelectSeq([i \in 1..Len(Universe) |-> [name |-> Universe[i], blob |-> 10 * i + 1, on |-> 1 \in pl[i]]], LAMBDA r : r.on)
+         \o (IF looseC THEN << [name |-> cTrk, blob |-> 91, on |-> TRUE] >> ELSE <<>>)
+Xm == SelectSeq([i \in 1..Len(Universe) |-> [name |-> Universe[i], blob |-> 10 * i + 2, on |-> 2 \in pl[i]]], LAMBDA r : r.on)
+Ym == SelectSeq([i \in 1..Len(Universe) |-> [name |-> Universe[i], blob |-> 10 * i + 3, on |-> 3 \in pl[i]]], LAMBDA r : r.on)
+Vols == (IF Xm # <<>> THEN << [file |-> xVol, kind |-> "vol", members |-> Xm] >> ELSE <<>>)
+        \o (IF Ym # <<>> THEN << [file |-> yVol, kind |-> "vol", members |-> Ym] >> ELSE <<>>)
+Clms == IF clm THEN << [file |-> zClm, kind |-> "clm", members |-> << [name |-> cTrk, blob |-> 94] >>] >> ELSE <<>>
+Rev == [i \in 1..Len(Vols) |-> Vols[Len(Vols) + 1 - i]]
+\* the two load orders the directory iteration may produce
+Layouts == << [loose |-> Loose, archives |-> Vols \o Clms], [loose |-> Loose, archives |-> Rev \o Clms] >>
+Answers(L) ==
+   [order |-> [i \in 1..Len(L.archives) |-> L.archives[i].file],
+    res |-> [i \in 1..Len(Queries) |-> [withArch |-> Resolve(L, Queries[i], TRUE), noArch |-> Resolve(L, Queries[i], FALSE),
+                                         containing |-> IF IsRooted(Queries[i]) THEN <<63>> ELSE ContainingArchive(L, Queries[i])]],
+    pats |-> [i \in 1..Len(Patterns) |-> [withArch |-> ListByPattern(L, Patterns[i], TRUE), noArch |-> ListByPattern(L, Patterns[i], FALSE)]],
+    types |-> [i \in 1..Len(TypeQueries) |-> [withArch |-> ListOfType(L, TypeQueries[i], TRUE), noArch |-> ListOfType(L, TypeQueries[i], FALSE)]],
+    txt |-> ListOfType(L, ExtTxt, TRUE), txtLoose |-> ListOfType(L, ExtTxt, FALSE), map |-> ListOfType(L, ExtMap, TRUE)]
+\* ---- the laws of the resolution rule, evaluated by TLC on every layout and both load orders ----------------------------------------------
+AsSet(q) == {q[i] : i \in 1..Len(q)}
+LooseNames(L) == {L.loose[i].name : i \in 1..Len(L.loose)}
+MemberNames(L) == UNION {{L.archives[a].members[j].name : j \in 1..Len(L.archives[a].members)} : a \in 1..Len(L.archives)}
+\* a loose file of exactly that name wins; without archive access nothing else is ever delivered; rooted names are refused either way
+LooseFirst == \A k \in 1..2 : \A i \in 1..Len(Queries) : LET L == Layouts[k]  q == Queries[i]  r == Resolve(L, q, TRUE)  n == Resolve(L, q, FALSE) IN
+   /\ (IsRooted(q) <=> r.kind = "refused") /\ (IsRooted(q) <=> n.kind = "refused")
+   /\ (~IsRooted(q) /\ StripDot(q) \in LooseNames(L)) => (r.kind = "bytes" /\ n = r /\ \E j \in 1..Len(L.loose) : L.loose[j].name = StripDot(q) /\ L.loose[j].blob = r.blob)
+   /\ (n.kind = "bytes" => StripDot(q) \in LooseNames(L))
+   /\ (r.kind = "bytes" /\ n.kind = "none" => \E a \in 1..Len(L.archives) : \E j \in 1..Len(L.archives[a].members) :
+                                                     NameEq(L.archives[a].members[j].name, q) /\ L.archives[a].members[j].blob = r.blob)
+\* a reported containing archive really contains the name; none is reported only if no archive does
+ContainingContains == \A k \in 1..2 : \A i \in 1..Len(Queries) : LET L == Layouts[k]  q == Queries[i]  c == ContainingArchive(L, q) IN
+   ~IsRooted(q) => IF c = <<>> THEN \A a \in 1..Len(L.archives) : ~Contains(L.archives[a], q)
+                   ELSE \E a \in 1..Len(L.archives) : L.archives[a].file = c /\ Contains(L.archives[a], q)
+\* type listings: only names that exist, every loose file of exactly that extension, no archive member that repeats a listed name ignoring case,
+\* and every matching member is represented by some listed name equal to it ignoring case
+TypeListingLaws == \A k \in 1..2 : \A i \in 1..Len(TypeQueries) : LET L == Layouts[k]  e == TypeQueries[i]  t == ListOfType(L, e, TRUE)  lo == ListOfType(L, e, FALSE) IN
+   /\ AsSet(t) \subseteq LooseNames(L) \cup MemberNames(L)
+   /\ AsSet(lo) = {n \in LooseNames(L) : Ext(n) = e} /\ SubSeq(t, 1, Len(lo)) = lo
+   /\ \A a, b \in (Len(lo) + 1)..Len(t) : a # b => ~CIEqual(t[a], t[b])
+   /\ \A m \in MemberNames(L) : CIEqual(Ext(m), WithDot(e)) => \E a \in 1..Len(t) : CIEqual(t[a], m)
+\* pattern listings do not depend on the load order as sets, and the loose-only listing is a prefix of the full one
+PatternListingLaws == \A i \in 1..Len(Patterns) :
+   /\ AsSet(ListByPattern(Layouts[1], Patterns[i], TRUE)) = AsSet(ListByPattern(Layouts[2], Patterns[i], TRUE))
+   /\ \A k \in 1..2 : LET f == ListByPattern(Layouts[k], Patterns[i], TRUE)  lo == ListByPattern(Layouts[k], Patterns[i], FALSE) IN SubSeq(f, 1, Len(lo)) = lo
+Export == Emit(<<pl, clm, looseC>>, << [op |-> "resmgr", loose |-> Loose, vols |-> Vols, clms |-> Clms, queries |-> Queries, patterns |-> Patterns, types |-> TypeQueries,
+                                         badRoots |-> << <<110,111,112,101>> >> \o (IF Loose # <<>> THEN << Loose[1].name >> ELSE <<>>),     \* "nope" and a regular file are no resource directories: construction refused
+                                         answers |-> << Answers(Layouts[1]), Answers(Layouts[2]) >>] >>)
 ====
